@@ -1,9 +1,9 @@
-\* C10 quick: 3 documents, 3 values, every corpus / match subset, 2 page settings (Size+From above and below the match count, both sort directions)
+\* C10 quick: 3 documents, 3 values, every corpus / match subset, page Size=1 From=1 descending (the store evicts)
 SPECIFICATION Spec
 CONSTANTS
   NDocs = 3
   Vals = {1, 2, 3}
   Sizes = {0, 1, 2, 3, 4, 5}
-  Pages <- PagesTwo
+  Pages <- PagesEvict
 INVARIANTS TypeOK Refines TallyBeforeStore FacetsAreTheMeaning CountsAreDocCounts Ordered Balanced Accounted PageOK
 CHECK_DEADLOCK FALSE
